@@ -28,7 +28,7 @@ FLOORS = {
                  'helpers_judged': 30000, 'position:index': 8000, 'position:quantifier-domain': 8000,
                  'fault:unknown-field': 20000, 'fault:index-out-of-range': 12000},
 }
-BUDGET = {'quick': 4500, 'thorough': 110000}
+BUDGET = {'quick': 9000, 'thorough': 160000}
 TIMEOUT = {'quick': 900, 'thorough': 7200}
 
 POSITIONS = ('top', 'index', 'range-bound', 'set-element', 'function-argument', 'quantifier-domain',
@@ -50,7 +50,7 @@ def extra_fields(rng, sch, n):
     return ('msg', f, dict(sch[2]))
 
 
-def numeric_reference(rng, fault, root, n, sch):
+def numeric_reference(rng, fault, root, n, sch, position=None):
     """(reference expr of inferred type NUMBER, expected-to-fail, needle) for the given fault"""
     def F(name, base=root):
         return ('field', base, name)
@@ -70,6 +70,9 @@ def numeric_reference(rng, fault, root, n, sch):
     if fault == 'array-as-message':
         return F(f'sub{n}', F(f'qa{n}')), f'sub{n}'
     if fault == 'type-mismatch':
+        if position in ('set-element', 'quantifier-domain'):
+            # set elements are only required to be primitive: a primitive field of another kind is no mismatch
+            return gen.pick(rng, (F(f'qa{n}'), F(f'qm{n}'))), None
         return gen.pick(rng, (F(f'qs{n}'), F(f'qb{n}'), F(f'qa{n}'), F(f'qm{n}'))), None
     if fault == 'index-out-of-range':
         k = flen + rng.choice((0, 0, 1, 5))
@@ -148,14 +151,12 @@ def run(ctx):
         schemas[owner_topic] = ext
         fault = gen.pick(rng, FAULTS) if rng.random() < 0.6 else None
         position = gen.pick(rng, POSITIONS)
-        ref, needle = numeric_reference(rng, fault, root, n, ext)
+        ref, needle = numeric_reference(rng, fault, root, n, ext, position)
         atom = place(rng, position, ref, root, n)
         if root != A.THIS:
-            # every predicate must still mention its own message
-            atom = ('bin', 'and', atom, ('bin', '>=', ('field', A.THIS, sorted(schemas[topic][1])[0]), ('field', A.THIS, sorted(schemas[topic][1])[0])))
-            own = schemas[topic][1][sorted(schemas[topic][1])[0]]
-            if own != gen.NUM:
-                atom = atom[:2] + (atom[2],) + (('bin', '=', ('field', A.THIS, sorted(schemas[topic][1])[0]), ('field', A.THIS, sorted(schemas[topic][1])[0])),)
+            # every predicate must still mention its own message: a trivial atom on a numeric own field
+            own = sorted(k for k, t in schemas[topic][1].items() if t == gen.NUM)[0]
+            atom = ('bin', 'and', atom, ('bin', '>=', ('field', A.THIS, own), ('field', A.THIS, own)))
         newpred = atom if pred is None else ('bin', gen.pick(rng, ('and', 'or', 'implies')), pred, atom) if rng.random() < 0.7 else ('bin', 'and', atom, pred)
         alts[ai] = ('ev', topic, alias, newpred)
         new_ev = alts[0] if ev[0] != 'disj' else ('disj', tuple(alts))
@@ -190,7 +191,9 @@ def run(ctx):
         expected_fail = bool(my_faults)
         if (fault is not None) != expected_fail:
             ctx.count('harness_disagrees_with_injection')
-            ctx.skip('model-and-injection-disagree')
+            ctx.skip(f'model-and-injection-disagree:{fault}@{position}')
+            if fault is None and ctx.counters['harness_disagrees_with_injection'] <= 6:
+                ctx.sample({'DISAGREE': text[:400], 'fault': fault, 'position': position, 'model': [str(f) for f in my_faults][:3]}, force=True)
             continue
         msg_types = {t: hplapi.type_token(st, 'T_' + t.strip('/~').replace('/', '_'), rng) for t, st in schemas.items()}
         for a, st in all_aliases.items():
